@@ -147,8 +147,8 @@ def show_facts(s):
 
 
 def kill_facts(s):
-    """only hands that are still in can be killed"""
-    return all(not s.hand_killing_statuses[i] or s.statuses[i] for i in range(s.player_count))
+    """only hands that are still in can be killed, and only while the last street is still current"""
+    return all(not s.hand_killing_statuses[i] or s.statuses[i] for i in range(s.player_count)) and (not p_kill(s) or s.street_index is not None)
 
 
 # ---- chips pushing --------------------------------------------------------------------------------------------------------------------
